@@ -157,6 +157,7 @@ func allChecks() []*Check {
 			Harnesses: []Harness{
 				{Pkg: "client", Func: "VerifC17Step", Quick: map[string]int{"NL": 2}, Thorough: map[string]int{"NL": 4},
 					Asserts: []string{"asks-for-generated-nick", "config-me-non-nil", "me-non-nil", "me-is-servers-nick", "no-unprompted-nick-change", "unaffected-by-old-nick-holder"}},
+				{Pkg: "client", Func: "VerifC17Reconnect", Asserts: []string{"reconnect:me-non-nil", "reconnect:me-is-servers-nick", "reconnect:registers-with-current-nick", "reconnect:asks-for-generated-nick"}, Note: "two connections on one client: renamed by the server, reconnect, 433 on the current nick, welcome under the generated one"},
 				{Pkg: "client", Func: "VerifC17NewNick", Asserts: []string{"same-length", "same-prefix", "last-byte-differs"}},
 			},
 			Bounds:      map[string]string{"quick": "one server event {433 before the welcome, 001 same/different nick with/without nick!user@host, own NICK (both parameter forms), 433 after the welcome, NICK of another user} from any state satisfying 'Me().Nick = server's nick'; nicks 1..2 symbolic bytes; tracking on/off; default generator and a custom one that is not a pure function (a different nick on every call: what is recorded as the client's nick must be what was sent); DefaultNewNick for all byte strings of length 1..3", "thorough": "nicks 1..4 bytes"},
